@@ -20,7 +20,7 @@ theorem isort_congr_perm (l1 l2 : List Rat) (h : l1.Perm l2) : isort l1 = isort 
 theorem perm_isort (l : List Rat) : (isort l).Perm l := by
   rw [isort_eq_insertionSort]; exact List.perm_insertionSort _ _
 
-theorem insMat_shaped (U : List Rat) (p : Nat) (x : Rat) (s m n : Nat) : Shaped (insMat U p x s m n) (n + 1) n := by
+theorem insMat_shaped (U : List Rat) (p : Nat) (x : Rat) (s n : Nat) : Shaped (insMat U p x s n) (n + 1) n := by
   refine ⟨by simp [insMat], ?_⟩
   intro row hrow
   simp only [insMat, List.mem_map, List.mem_range] at hrow
@@ -53,39 +53,36 @@ theorem insert_step_facts (k k' : KV) (x : Rat) (M : Mat)
   · split at hM
     · cases hM
     · rename_i s hs
-      split at hM
-      · cases hM
-      · rename_i m hmult
-        simp only [Except.ok.injEq] at hM
-        have hMeq : M = insMat k.v k.deg x s m k.npts := hM.symm
-        have hlenk := g.ord.len
-        have hps : k.deg ≤ s := span_ge_deg k g.deg_lt x s hs
-        have hsn : s < k.npts := span_lt_npts k g.ord x s hs (by have := g.deg_lt; omega)
-        have hspan : nth k.v s ≤ x ∧ x < nth k.v (s + 1) := by
-          rcases span_spec k x s hs with h | ⟨h, _⟩
-          · exact h
-          · exfalso; rw [h] at hx; exact lt_irrefl _ hx
-        have hnth : ∀ i, nth k'.v i = insKnots (nth k.v) s x i := by
-          intro i
-          rw [hvk']
-          exact nth_isort_append_single k.v s x hwf.sorted (by omega) hspan.1 (le_of_lt hspan.2) i
-        have hlen' : k'.v.length = k.v.length + 1 := by rw [hvk', length_isort]; simp
-        -- the degree is unchanged: the first value keeps its count
-        have hfirst : nth k.v 0 = k.umin := (umin_eq_first k.v k.deg hwf).symm
-        have hdeg : k'.deg = k.deg := by
-          rw [hdk', headD_eq_nth, hnth 0, insKnots_le _ _ _ _ (by omega), hvk', cnt_isort, cnt_append]
-          have hx0 : cnt [x] (nth k.v 0) = 0 := by
-            have : ¬ x = nth k.v 0 := by rw [hfirst]; exact ne_of_gt hx1
-            simp [cnt, this]
-          have := hwf.first
-          rw [headD_eq_nth] at this
-          rw [hx0, this]; omega
-        have hnpts' : k'.npts = k.npts + 1 := by
-          unfold KV.npts; rw [hlen', hdeg]; unfold KV.npts at hlenk; omega
-        refine ⟨hdeg, hnpts', ?_, ?_, ?_, hvk', hwf'⟩
-        · unfold KV.umin; rw [hdeg, hnth, insKnots_le _ _ _ _ hps]
-        · unfold KV.umax; rw [hnpts', hnth, insKnots_gt _ _ _ _ (by omega)]; rfl
-        · rw [hMeq]; exact insMat_shaped _ _ _ _ _ _
+      simp only [Except.ok.injEq] at hM
+      have hMeq : M = insMat k.v k.deg x s k.npts := hM.symm
+      have hlenk := g.ord.len
+      have hps : k.deg ≤ s := span_ge_deg k g.deg_lt x s hs
+      have hsn : s < k.npts := span_lt_npts k g.ord x s hs (by have := g.deg_lt; omega)
+      have hspan : nth k.v s ≤ x ∧ x < nth k.v (s + 1) := by
+        rcases span_spec k x s hs with h | ⟨h, _⟩
+        · exact h
+        · exfalso; rw [h] at hx; exact lt_irrefl _ hx
+      have hnth : ∀ i, nth k'.v i = insKnots (nth k.v) s x i := by
+        intro i
+        rw [hvk']
+        exact nth_isort_append_single k.v s x hwf.sorted (by omega) hspan.1 (le_of_lt hspan.2) i
+      have hlen' : k'.v.length = k.v.length + 1 := by rw [hvk', length_isort]; simp
+      -- the degree is unchanged: the first value keeps its count
+      have hfirst : nth k.v 0 = k.umin := (umin_eq_first k.v k.deg hwf).symm
+      have hdeg : k'.deg = k.deg := by
+        rw [hdk', headD_eq_nth, hnth 0, insKnots_le _ _ _ _ (by omega), hvk', cnt_isort, cnt_append]
+        have hx0 : cnt [x] (nth k.v 0) = 0 := by
+          have : ¬ x = nth k.v 0 := by rw [hfirst]; exact ne_of_gt hx1
+          simp [cnt, this]
+        have := hwf.first
+        rw [headD_eq_nth] at this
+        rw [hx0, this]; omega
+      have hnpts' : k'.npts = k.npts + 1 := by
+        unfold KV.npts; rw [hlen', hdeg]; unfold KV.npts at hlenk; omega
+      refine ⟨hdeg, hnpts', ?_, ?_, ?_, hvk', hwf'⟩
+      · unfold KV.umin; rw [hdeg, hnth, insKnots_le _ _ _ _ hps]
+      · unfold KV.umax; rw [hnpts', hnth, insKnots_gt _ _ _ _ (by omega)]; rfl
+      · rw [hMeq]; exact insMat_shaped _ _ _ _ _
 
 /-- the loop invariant: the accumulated matrix `m` maps coefficients over `k0` to coefficients over `k` of the
 same function -/
